@@ -147,6 +147,9 @@ impl<'a> RecursivePageTable<'a> {
                     return Err(MapToError::FrameAllocationFailed);
                 }
             } else {
+                if entry.flags().contains(Flags::HUGE_PAGE) {
+                    return Err(MapToError::ParentEntryHugePage);
+                }
                 if !insert_flags.is_empty() && !entry.flags().contains(insert_flags) {
                     entry.set_flags(entry.flags() | insert_flags);
                 }
